@@ -430,6 +430,21 @@ func (t *Taint) call(ci ssa.CallInstruction, v ssa.Value) {
 						t.AddDeep(mi.X, v)
 					}
 				}
+				// a callback handed to the external function (jsonparser.ObjectEach, sort.Slice, ...): it is called
+				// with pieces of the data
+				var cb *ssa.Function
+				switch y := a.(type) {
+				case *ssa.MakeClosure:
+					cb, _ = y.Fn.(*ssa.Function)
+				case *ssa.Function:
+					cb = y
+				}
+				if cb != nil && t.inScope(cb) {
+					for _, p := range cb.Params {
+						t.Add(p, v)
+					}
+					continue
+				}
 				switch a.Type().Underlying().(type) {
 				case *types.Pointer:
 					t.taintAddr(a, v)
@@ -480,4 +495,87 @@ func (t *Taint) addResult(site ssa.CallInstruction, nres, i int, from ssa.Value)
 			}
 		}
 	}
+}
+
+// RunWithMapKeys is Run plus key flow through maps held in fields, globals or locals: when a tainted value
+// is used as the KEY of a map update, the keys produced by ranging over the same map carrier (and only the
+// keys: neither the map's values nor its lookups) are tainted.  Carriers are resolved by field / global /
+// SSA value; maps passed on as parameters are followed through the ordinary value flow of the map value
+// only when the map itself is tainted, so this is an under-approximation of key flow, never of value flow.
+func (t *Taint) RunWithMapKeys() (keyCarriers int) {
+	t.Run()
+	type carrier struct {
+		f *types.Var
+		g *ssa.Global
+		v ssa.Value
+	}
+	carrierOf := func(m ssa.Value) carrier {
+		if ld, ok := m.(*ssa.UnOp); ok {
+			switch a := ld.X.(type) {
+			case *ssa.FieldAddr:
+				return carrier{f: fieldOfAddr(a)}
+			case *ssa.Global:
+				return carrier{g: a}
+			}
+		}
+		return carrier{v: m}
+	}
+	type upd struct {
+		mu *ssa.MapUpdate
+		c  carrier
+	}
+	var updates []upd
+	ranges := map[carrier][]*ssa.Range{}
+	for _, fn := range t.C.RepoFunctions() {
+		if !t.inScope(fn) {
+			continue
+		}
+		for _, b := range fn.Blocks {
+			for _, in := range b.Instrs {
+				switch x := in.(type) {
+				case *ssa.MapUpdate:
+					updates = append(updates, upd{x, carrierOf(x.Map)})
+				case *ssa.Range:
+					if _, isMap := x.X.Type().Underlying().(*types.Map); isMap {
+						c := carrierOf(x.X)
+						ranges[c] = append(ranges[c], x)
+					}
+				}
+			}
+		}
+	}
+	done := map[carrier]bool{}
+	for changed := true; changed; {
+		changed = false
+		for _, u := range updates {
+			if done[u.c] || !t.vals[u.mu.Key] {
+				continue
+			}
+			if t.Block != nil && t.Block(u.mu.Key, u.mu) {
+				continue
+			}
+			done[u.c] = true
+			keyCarriers++
+			for _, rg := range ranges[u.c] {
+				if refs := rg.Referrers(); refs != nil {
+					for _, nx := range *refs {
+						next, ok := nx.(*ssa.Next)
+						if !ok || next.Referrers() == nil {
+							continue
+						}
+						for _, ex := range *next.Referrers() {
+							if e, ok := ex.(*ssa.Extract); ok && e.Index == 1 {
+								t.Add(e, u.mu.Key)
+								changed = true
+							}
+						}
+					}
+				}
+			}
+		}
+		if changed {
+			t.Run()
+		}
+	}
+	return keyCarriers
 }
